@@ -298,6 +298,39 @@ func solveOne(ob *Obligation, dir string, timeoutS int, crossCheck bool) {
 		ob.Solver = unsat.s
 	default:
 		ob.Status = "unknown"
+		if !ob.Cover {
+			// no solver decided the full query (quantified background axioms make `sat` unreachable).
+			// Look for a CANDIDATE counterexample in the quantifier-free part: dropping hypotheses can only
+			// add models, so such a model proves nothing by itself -- it is only used to drive the replay
+			// against the real code, which is what confirms (or discards) it.
+			var qf []string
+			for _, a := range ob.assertionsFor("z3") {
+				if !isQuantified(a) {
+					qf = append(qf, a)
+				}
+			}
+			reqQuantified := false
+			for i := ob.fc.reqStart; i < ob.fc.reqEnd && i < len(ob.fc.assertions); i++ {
+				if isQuantified(ob.fc.assertions[i]) {
+					// a dropped precondition would let the candidate lie outside the contract
+					reqQuantified = true
+				}
+			}
+			if !reqQuantified && !isQuantified(ob.PC.S) && !isQuantified(ob.Goal.S) {
+				rq := ob.render(qf)
+				fq := base + ".qf.smt2"
+				if os.WriteFile(fq, []byte(rq), 0o644) == nil {
+					cctx, ccancel := context.WithTimeout(context.Background(), 8*time.Second)
+					v, out := runSolver(cctx, solvers[0], fq, 5)
+					ccancel()
+					if v == "sat" {
+						ob.Model = trimModel(out)
+						ob.ModelQuery = rq
+						ob.Outputs["z3-new/quantifier-free"] = "sat (candidate model only)"
+					}
+				}
+			}
+		}
 		nerr := 0
 		for _, v := range ob.Outputs {
 			if v == "error" {
